@@ -215,6 +215,14 @@ def impl_builtin(case):
     mk = (lambda: L2Cost()) if case["cost"] == "l2" else (lambda: GaussianVarCost())
     try:
         det = PELT(mk(), penalty_scale=case["scale"], min_segment_length=m)
+        if core._bits(case, 36, 3) == 0:
+            # the same configuration reached by re-configuring a detector that was constructed (and possibly used) with
+            # another cost parameter: PELT(cost(param=...)).set_params(cost__param=None)
+            det = PELT(L2Cost(param=3.0) if case["cost"] == "l2" else GaussianVarCost(param=(3.0, 2.0)), penalty_scale=case["scale"],
+                       min_segment_length=m)
+            if case["n"] % 2:
+                det.fit(wrap(np.array(case["X"], dtype=float)[::-1] + 0.5)).predict(wrap(np.array(case["X"], dtype=float)[::-1] + 0.5))
+            det.set_params(cost__param=None)
         if case.get("warm") is not None:
             W = wrap(np.array(case["warm"], dtype=float))
             det.fit(W)
@@ -263,12 +271,12 @@ def oracle_builtin(case, r):
         F[e] = min(F[s] + c(s, e) + K for s in [0] + list(range(m, e - m + 1)))
     val = sum(c(b[i], b[i + 1]) for i in range(len(b) - 1)) + K * len(cps)
     tol = 1e-7 * (1 + abs(F[n]))
-    if abs(val - F[n]) > tol:
+    if not abs(val - F[n]) <= tol:  # (written so that NaN fails)
         return f"returned segmentation {cps} has penalised cost {val!r}; the optimum is {F[n]!r}"
-    if abs(r["opt"][n - 1] - val) > tol:
+    if not abs(r["opt"][n - 1] - val) <= tol:
         return f"final score {r['opt'][n - 1]!r} differs from the penalised cost {val!r} of the returned segmentation"
     for e in range(m, n + 1):
-        if abs(r["opt"][e - 1] - F[e]) > 1e-7 * (1 + abs(F[e])):
+        if not abs(r["opt"][e - 1] - F[e]) <= 1e-7 * (1 + abs(F[e])):
             return f"score of prefix {e} is {r['opt'][e - 1]!r}; the optimal penalised cost of that prefix is {F[e]!r}"
     return None
 
@@ -377,10 +385,10 @@ def oracle_long(case, r):
         return f"returned changepoints {cps} leave a segment shorter than min_segment_length={m} (n={n})"
     val = sum(cost(b[i], b[i + 1]) for i in range(len(b) - 1)) + K * len(cps)
     tol = 1e-7 * (1 + abs(F[n]))
-    if abs(val - F[n]) > tol:
+    if not abs(val - F[n]) <= tol:  # (written so that NaN fails)
         return f"n={n}: returned segmentation {cps} has penalised cost {val!r}; the optimum is {F[n]!r}"
     opt = np.array(r["opt"])
-    bad = np.where(np.abs(opt[m - 1:] - F[m:]) > 1e-7 * (1 + np.abs(F[m:])))[0]
+    bad = np.where(~(np.abs(opt[m - 1:] - F[m:]) <= 1e-7 * (1 + np.abs(F[m:]))))[0]
     if len(bad):
         e = int(bad[0]) + m
         return f"n={n}: score of prefix {e} is {opt[e - 1]!r}; the optimal penalised cost of that prefix is {F[e]!r}"
